@@ -46,6 +46,7 @@ type Gen struct {
 	effects     map[*ssa.Function]map[string]bool
 	Funcs       map[string]*ssa.Function // contract key -> function
 	Unsupported map[string][]string      // function key -> reasons
+	reach       map[*ssa.Function]bool
 }
 
 type StructSort struct {
